@@ -95,6 +95,12 @@ def cases_segment(r):
     fs = r.choice([0.5, 0.25, 1.0])
     total = r.randrange(4, 40) * 64
     iv, lab = gen.segmentation(r, total=total, min_len=64)
+    if r.random() < 0.15:
+        # one frame per segment, all labels distinct (every frame its own cluster)
+        fr = int(round(fs * Q))
+        k = r.randrange(2, 9)
+        iv = np.array([[i * fr / Q, (i + 1) * fr / Q] for i in range(k)])
+        lab = ["u%d" % i for i in range(k)]
     y_iv, y_lab = iv.copy(), list(lab)
     fl = ofr.fold(ofr.label_at_samples(iv, lab, fs)[0])
     nlab = len(set(fl))
@@ -415,8 +421,13 @@ def run_shard(spec, ctx):
         ctx.hist("perfect.calls", fn)
         case = {"kind": "perfect", "fn": fn, "args": args, "kwargs": kw, "expect": exp}
         if e["outcome"] != "ret":
-            ctx.count("raised(C14)")
+            ctx.count("raised")
             ctx.hist("raised", "%s:%s" % (fn, e["value"]))
+            ctx.violation("C02/%s/raises/%s" % (fn, e["value"]), "raises", fn,
+                          "%s(x, copy(x)) raised %s instead of returning the optimum"
+                          % (fn, e["value"]), case,
+                          witness={"fn": fn, "args": args, "kwargs": kw,
+                                   "exception": e["value"]})
             continue
         bad = compare(ctx, fn, e["value"], exp, case)
         if xkey is not None:
